@@ -170,6 +170,8 @@ inductive Op
   | close                 -- ImageIterator.close
   | setSize (s : Nat)     -- the image's size is changed between two frames
   | imgSeek (k : Int)     -- BaseImage.seek (documented not to affect iteration)
+  | render                -- `format(image, spec)` directly, at the image's current frame and size
+  | pilSeek (k : Nat)     -- the caller moves the PIL image the instance was made from (`pil.seek(k)`)
 deriving Repr
 
 inductive Ans (α : Type)
@@ -214,6 +216,10 @@ def step (st : St α) : Op → St α × Ans α
   | .imgSeek k =>
     if k < 0 ∨ k ≥ (c.nf : Int) then (st, .err "ValueError")
     else ({ st with seekPos := k.toNat }, .ok)
+  -- every render positions the PIL image itself (`img.seek(self._seek_position)`): where the caller, an
+  -- earlier render or an iterator left it does not matter
+  | .render => (st, .frame (some (rf st.seekPos st.size)))
+  | .pilSeek _ => (st, .ok)
 
 /-- one observation per operation: the answer, `image.tell()`, `iterator.loop_no` -/
 structure Obs (α : Type) where
@@ -275,6 +281,8 @@ def specStep (sp : Sp) : Op → Sp × Ans α
   | .imgSeek k =>
     if k < 0 ∨ k ≥ (c.nf : Int) then (sp, .err "ValueError")
     else ({ sp with seekPos := k.toNat }, .ok)
+  | .render => (sp, .frame (some (rf sp.seekPos sp.size)))
+  | .pilSeek _ => (sp, .ok)
 
 def specRun (sp : Sp) : List Op → List (Obs α)
   | [] => []
